@@ -36,11 +36,19 @@ def gen_history(r, nops):
     for ci in range(nc):
         ops.append("cur %d open 1 %s" % (ci, r.choice(["bf", "al"])))
     wdel = r.choice([0.0, 0.15, 0.3])
+    live = set(range(nc))
+    wclose = r.choice([0.0, 0.01, 0.03]) if nc > 1 else 0.0
     for _ in range(nops):
         x = r.random()
         ci = r.randrange(nc)
         k, c = r.choice(pool)
-        if x < 0.30:
+        if ci not in live:                       # a closed slot: open a new cursor in it (it goes to the front of db->cursors)
+            ops.append("cur %d open 1 %s" % (ci, r.choice(["bf", "al"])))
+            live.add(ci)
+        elif r.random() < wclose:                # close one cursor (any place in the list) while the others go on
+            ops.append("cur %d close" % ci)
+            live.discard(ci)
+        elif x < 0.30:
             ops.append("put 1 %s %d %s 0 %d" % (G.H(k), c, G.H(G.gen_value(r, big=False)), G.gen_level(r)))
         elif x < 0.30 + wdel:
             ops.append("del 1 %s %d" % (G.H(k), c))
@@ -54,7 +62,7 @@ def gen_history(r, nops):
             ops.append("cur %d tokey %s %s %d" % (ci, r.choice(["eq", "ge"]), G.H(k), c))
         else:
             ops.append("cur %d to %s" % (ci, r.choice(["bf", "al"])))
-    for ci in range(nc):
+    for ci in r.sample(sorted(live), len(live)):
         ops.append("cur %d close" % ci)
     ops += ["dump 1", "close"]
     return ops
